@@ -101,18 +101,19 @@ def pre_c11():
 
 
 engine_prop('C01', ['C01'], CHIP_FIELDS, CHIP_OPS)
-engine_prop('C02', ['C02'], SHOW_FIELDS | CHIP_FIELDS, {'ChipsPushing', 'HandKilling', 'HoleCardsShowingOrMucking'})
-engine_prop('C03', ['C03'], BET_FIELDS, BET_OPS, directed={'rule96': 0.08})
-engine_prop('C06', ['C06'], CARD_FIELDS, CARD_OPS)
+engine_prop('C02', ['C02'], SHOW_FIELDS | CHIP_FIELDS, {'ChipsPushing', 'HandKilling', 'HoleCardsShowingOrMucking'},
+            directed={'chop': 0.04})
+engine_prop('C03', ['C03'], BET_FIELDS, BET_OPS, directed={'rule96': 0.08, 'bigpost': 0.04})
+engine_prop('C06', ['C06'], CARD_FIELDS, CARD_OPS, directed={'deck_boundary': 0.08})
 engine_prop('C07', ['C07'], PHASE_FIELDS | CAN_FIELDS, ALL_OPS, results=True)
 engine_prop('C08', ['C08'], CAN_FIELDS, set(), results=True)
-engine_prop('C09', ['C09'], PHASE_FIELDS | CHIP_FIELDS | CARD_FIELDS, ALL_OPS, directed={'ante_allin': 0.04})
-engine_prop('C10', ['C10'], DEAL_FIELDS, DEAL_OPS, directed={'exact_deck': 0.08})
-engine_prop('C12', ['C12'], SHOW_FIELDS | CHIP_FIELDS, SHOW_OPS)
+engine_prop('C09', ['C09'], PHASE_FIELDS | CHIP_FIELDS | CARD_FIELDS, ALL_OPS, directed={'ante_allin': 0.04, 'stud8': 0.04})
+engine_prop('C10', ['C10'], DEAL_FIELDS, DEAL_OPS, directed={'exact_deck': 0.08, 'stud8': 0.04})
+engine_prop('C12', ['C12'], SHOW_FIELDS | CHIP_FIELDS, SHOW_OPS, directed={'stud8': 0.05})
 # C11's statement covers, per variant, the hole cards and facings and the board cards of every street, the
 # betting structure, caps and bet sizes: the dealing slice belongs to it as well as the raise sizes
 engine_prop('C11', ['C11', 'C11deal'], {'variant_table', 'min_cbr', 'pot_cbr', 'max_cbr', 'can_cbr', 'cbrCnt', 'cbrAmt'} | DEAL_FIELDS,
-            {'CompletionBettingOrRaisingTo'} | DEAL_OPS, profile={'predefined': True}, pre=pre_c11)
+            {'CompletionBettingOrRaisingTo'} | DEAL_OPS, profile={'predefined': True}, pre=pre_c11, directed={'stud8': 0.04})
 def pre_c16():
     import phh
     r = phh.check_parse_lines(20250916, 4000)
@@ -132,7 +133,7 @@ engine_prop('C17', ['C17'], {'acpc'}, set(), quick=1440,
 engine_prop('C13', ['C13'], {'opener', 'actors', 'actor', 'turn', 'bringin', 'completion'}, BET_OPS,
             directed={'ante_allin': 0.08})
 engine_prop('C14', ['C14'], RUNOUT_FIELDS | {'subpots', 'pots_'}, {'RunoutCountSelection', 'BoardDealing', 'ChipsPushing', 'HoleCardsShowingOrMucking'})
-engine_prop('C15', ['C15'], set(), ALL_OPS)
+engine_prop('C15', ['C15'], set(), ALL_OPS, directed={'chop': 0.05})
 
 
 def _print_known(matched: dict):
